@@ -12,6 +12,16 @@ BASE_NOTE = (
 
 # property -> (category, text, technique, design_ref, extra note)
 CLAIMS = {
+    "C08": (
+        "proof",
+        "Two-run (relational) contracts on every limit-reading kernel of the render context (raise_for_loop_limit, assign, copy, get_buffer, _get_buffer, extend, LimitedStringIO.write): "
+        "a run under any limit value that returns agrees with the unlimited run on its result and on the whole reachable heap modulo the limit bookkeeping fields, and a limit only ever raises its own ResourceLimitError; "
+        "monotonicity (success under L1 implies success under L2 > L1) per kernel. That limits cannot steer rendering elsewhere is a structural obligation over every read of a limit attribute (it only guards a raise, sizes a buffer or short-circuits the measurement). "
+        "A bounded sweep of all five limits over 9 templates stands in for the tag layer.",
+        "relational (two-run) contract verification on real source (z3) + structural guard-only obligations + bounded contract check",
+        "DESIGN.md section 4 C08",
+        "",
+    ),
     "C03": (
         "proof",
         "Routing contracts on the real Environment.error and RenderContext.error per mode (STRICT raises and warns nothing; WARN emits exactly one warning and returns; LAX returns silently); "
